@@ -139,7 +139,7 @@ Lemma apply_inc_eq : forall fo t o, p_op o = OIncrement ->
   apply_op fo t o = if is_root (p_path o) then (RcOk, t)
                     else match p_val o with None => (RcNoValue, t) | Some v => put_or_create fo OIncrement t (p_path o) v end.
 Proof.
-  intros fo t o H. unfold apply_op. rewrite H.
+  intros fo t o H. unfold apply_op, apply_op_v. rewrite H. cbn [negb].
   change (op_eqb OIncrement OSwap) with false. change (op_eqb OIncrement OTest) with false.
   change (op_eqb OIncrement ORemove) with false. change (op_eqb OIncrement OReplace) with false.
   change (op_eqb OIncrement OAdd) with false. change (op_eqb OIncrement OMove) with false.
@@ -198,7 +198,7 @@ Lemma apply_none_eq : forall fo t o, p_op o = ONone ->
   apply_op fo t o = if is_root (p_path o) then (RcOk, t)
                     else match p_val o with None => (RcNoValue, t) | Some v => put_or_create fo ONone t (p_path o) v end.
 Proof.
-  intros fo t o H. unfold apply_op. rewrite H.
+  intros fo t o H. unfold apply_op, apply_op_v. rewrite H. cbn [negb].
   change (op_eqb ONone OSwap) with false. change (op_eqb ONone OTest) with false.
   change (op_eqb ONone ORemove) with false. change (op_eqb ONone OReplace) with false.
   change (op_eqb ONone OAdd) with false. change (op_eqb ONone OMove) with false.
@@ -466,10 +466,10 @@ Proof.
 Qed.
 
 Lemma apply_addcreate_eq : forall fo t o, p_op o = OAddCreate ->
-  apply_op fo t o = if is_root (p_path o) then match p_val o with None => (RcNoValue, t) | Some v => (RcOk, v) end
+  apply_op fo t o = if is_root (p_path o) then match p_val o with None => (RcNoValue, t) | Some v => (RcOk, copy_data t v) end
                     else match p_val o with None => (RcNoValue, t) | Some v => put_or_create fo OAddCreate t (p_path o) v end.
 Proof.
-  intros fo t o H. unfold apply_op. rewrite H.
+  intros fo t o H. unfold apply_op, apply_op_v. rewrite H. cbn [negb].
   change (op_eqb OAddCreate OSwap) with false. change (op_eqb OAddCreate OTest) with false.
   change (op_eqb OAddCreate ORemove) with false. change (op_eqb OAddCreate OReplace) with false.
   change (op_eqb OAddCreate OAdd) with false. change (op_eqb OAddCreate OMove) with false.
@@ -519,7 +519,8 @@ Proof.
   unfold op_good in G. destruct (p_val o) as [v|]; cbn [option_map].
   2:{ destruct (is_root (p_path o)); cbn [fst snd]; split; try discriminate; auto. }
   specialize (G v eq_refl). destruct (is_root (p_path o)) eqn:R.
-  - cbn [fst snd]. destruct G as [G1 G2]. repeat split; auto. apply doc_val_good. exact G2.
+  - cbn [fst snd]. pose proof (good_copy_data t v G) as [G1 G2]. repeat split; auto.
+    rewrite (doc_val_good _ G2), val_copy_data. reflexivity.
   - pose proof (poc_create fo v t (p_path o) G H (not_root_nonempty _ R)) as P.
     destruct P as [P1 [P2 P3]].
     destruct (ty_none_dec t) as [T|T].
@@ -877,6 +878,7 @@ Lemma apply_swap_eq : forall fo t o, p_op o = OSwap ->
   else match p_from o with
        | None => (RcPatchInvalid, t)
        | Some f =>
+         if seg_nested f (p_path o) then (RcPatchInvalid, t) else
          match m_find t f, m_locate t f with
          | Some v, Some pf =>
            match swap_target t (p_path o) with
@@ -903,7 +905,7 @@ Lemma apply_swap_eq : forall fo t o, p_op o = OSwap ->
          end
        end.
 Proof.
-  intros fo t o H. unfold apply_op. rewrite H.
+  intros fo t o H. unfold apply_op, apply_op_v. rewrite H. cbn [negb].
   change (op_eqb OSwap OSwap) with true. change (op_eqb OSwap OTest) with false. change (op_eqb OSwap ORemove) with false.
   change (op_eqb OSwap OReplace) with false. change (op_eqb OSwap OAdd) with false. change (op_eqb OSwap OMove) with false.
   change (op_eqb OSwap OCopy) with false. change (op_eqb OSwap OAddCreate) with false.
@@ -929,9 +931,14 @@ Proof.
   - cbn [fst snd]. split; [discriminate | exact H].
   - set (f := f0 :: fr). cbv iota.
     destruct (is_root (p_path o)) eqn:R; [cbn [fst snd]; repeat split; auto|].
+    change (negb (Nat.eqb (length f) (length (p_path o))) && (seg_prefix f (p_path o) || seg_prefix (p_path o) f))
+      with (seg_nested f (p_path o)).
     destruct (ty_none_dec t) as [T|T].
-    { rewrite (doc_val_none t T). rewrite (none_find t f T) by discriminate. cbn [fst snd]. split; [discriminate | exact H]. }
-    rewrite (doc_val_good t T). cbn [option_map]. unfold lib_swap. unfold sseg, seg in *.
+    { rewrite (doc_val_none t T). destruct (seg_nested f (p_path o)); [cbn [fst snd]; split; [discriminate | exact H]|].
+      rewrite (none_find t f T) by discriminate. cbn [fst snd]. split; [discriminate | exact H]. }
+    rewrite (doc_val_good t T).
+    destruct (seg_nested f (p_path o)); [cbn [fst snd]; split; [discriminate | exact H]|].
+    cbn [option_map]. unfold lib_swap. unfold sseg, seg in *.
     pose proof (locate_spec f t H) as L. pose proof (find_spec f t H) as FS.
     destruct (m_locate t f) as [pf|] eqn:ML.
     2:{ destruct L as [L1 L2]. rewrite L1, L2. cbn [fst snd option_map]. split; [discriminate | exact H]. }
@@ -1072,6 +1079,12 @@ Proof.
   intro F. exact (m_put_fail_same fo k v K p t r n' M F).
 Qed.
 
+Lemma root_from_fail_same : forall t from, fst (root_from t from) <> RcOk -> snd (root_from t from) = t.
+Proof.
+  intros t [[|s r]|]; cbn [root_from]; try reflexivity.
+  destruct (m_find t (s :: r)); [intro F; exfalso; apply F; reflexivity | reflexivity].
+Qed.
+
 Definition atomic_kind (k : opk) : Prop :=
   k = ONone \/ k = OAdd \/ k = ORemove \/ k = OCopy \/ k = OTest \/ k = OIncrement \/ k = OAddCreate \/ k = OSwap.
 
@@ -1086,7 +1099,7 @@ Proof.
     + destruct (p_val o); [|reflexivity]. apply poc_fail_same; [discriminate | reflexivity].
   - rewrite (apply_remove_eq fo t o K). destruct (is_root (p_path o)); [intro F; exfalso; apply F; reflexivity|].
     destruct (m_detach t (p_path o)) as [[t' d]|]; [intro F; exfalso; apply F; reflexivity | reflexivity].
-  - rewrite (apply_copy_eq fo t o K). destruct (is_root (p_path o)); [reflexivity|].
+  - rewrite (apply_copy_eq fo t o K). destruct (is_root (p_path o)); [apply root_from_fail_same|].
     destruct (p_from o) as [f|]; [|reflexivity]. destruct (m_find t f); [|reflexivity].
     apply poc_fail_same; [discriminate | reflexivity].
   - pose proof (test_outcome fo t o) as TO. rewrite (apply_test_eq fo t o K).
@@ -1098,7 +1111,7 @@ Proof.
   - rewrite (apply_swap_eq fo t o K).
     destruct (match p_from o with Some [] => true | _ => false end); [reflexivity|].
     destruct (is_root (p_path o)); [reflexivity|].
-    destruct (p_from o) as [f|]; [|reflexivity].
+    destruct (p_from o) as [f|]; [|reflexivity]. destruct (seg_nested f (p_path o)); [reflexivity|].
     destruct (m_find t f) as [v|]; [|reflexivity]. destruct (m_locate t f) as [pf|]; [|reflexivity].
     destruct (swap_target t (p_path o)) as [[pp [[i c]|]]|]; [| |reflexivity].
     + cbv zeta. destruct (pos_eqb pf (pp ++ [i])); [reflexivity|].
@@ -1561,13 +1574,17 @@ Proof. intros. unfold s_add. rewrite jmod_cfg_eq. reflexivity. Qed.
 Lemma s_remove_cfg_eq : forall v p, s_remove lenient v p = s_remove strict v p.
 Proof. intros. unfold s_remove. rewrite jmod_cfg_eq. reflexivity. Qed.
 
-(* an operation that does not touch the two remaining leniencies *)
+(* an operation that does not touch the remaining leniencies: "/" as the root, a move into one's own child, and - once the
+   document has been removed - the root moved / copied onto itself (the library: nothing to do, 0) *)
 Definition rfc_shaped (o : sop) : Prop :=
-  no_root_alias o /\ (s_op o = SMove -> forall f, s_from o = Some f -> proper_prefix f (s_path o) = false).
+  no_root_alias o /\ (s_op o = SMove -> forall f, s_from o = Some f -> proper_prefix f (s_path o) = false) /\
+  ((s_op o = SMove \/ s_op o = SCopy) -> s_path o = [] -> s_from o <> Some []).
 
 Theorem rfc_op_lenient_is_strict : forall feq d o, rfc_shaped o -> rfc_op lenient feq d o = rfc_op strict feq d o.
 Proof.
-  intros feq d o [[NA NR] PP]. unfold rfc_op. rewrite (strict_root _ NA).
+  intros feq d o [NA [PP NS]]. unfold no_root_alias in NA. unfold rfc_op. rewrite (strict_root _ NA).
+  assert (RE : s_is_root strict (s_path o) = true -> s_path o = []).
+  { destruct (s_path o) as [|[|? ?] [|? ?]]; [reflexivity | discriminate ..]. }
   destruct (s_op o) eqn:K; try reflexivity.
   - destruct (s_val o); [|reflexivity]. destruct (s_is_root strict (s_path o)); [reflexivity|].
     destruct d; [|reflexivity]. rewrite s_add_cfg_eq. reflexivity.
@@ -1575,16 +1592,20 @@ Proof.
   - destruct (s_val o); [|reflexivity]. destruct (s_is_root strict (s_path o)); [reflexivity|].
     destruct d as [dv|]; [|reflexivity]. rewrite s_remove_cfg_eq. destruct (s_remove strict dv (s_path o)); [|reflexivity].
     rewrite s_add_cfg_eq. reflexivity.
-  - assert (R : s_is_root strict (s_path o) = false).
-    { destruct (s_path o) as [|[|? ?] [|? ?]] eqn:E; try reflexivity. exfalso. apply (NR (or_intror eq_refl)). reflexivity. }
-    rewrite R. destruct (s_from o) as [f|]; [|destruct d; reflexivity]. destruct d as [dv|]; [|reflexivity].
-    rewrite jget_cfg_eq. destruct (jget strict dv f); [|reflexivity]. rewrite s_add_cfg_eq. reflexivity.
-  - assert (R : s_is_root strict (s_path o) = false).
-    { destruct (s_path o) as [|[|? ?] [|? ?]] eqn:E; try reflexivity. exfalso. apply (NR (or_introl eq_refl)). reflexivity. }
-    rewrite R. destruct (s_from o) as [f|] eqn:EF; [|destruct d; reflexivity]. destruct d as [dv|]; [|reflexivity].
-    cbn [c_lenient strict lenient negb andb]. rewrite (PP eq_refl f eq_refl).
-    rewrite jget_cfg_eq. destruct (jget strict dv f); [|reflexivity]. rewrite s_remove_cfg_eq.
-    destruct (s_remove strict dv f); [|reflexivity]. rewrite s_add_cfg_eq. reflexivity.
+  - cbn [c_lenient strict lenient andb]. destruct (s_is_root strict (s_path o)) eqn:R.
+    + specialize (NS (or_intror eq_refl) (RE eq_refl)).
+      destruct (s_from o) as [[|s r]|]; [contradiction (NS eq_refl) | | destruct d; reflexivity].
+      destruct d as [dv|]; [|reflexivity]. rewrite jget_cfg_eq. reflexivity.
+    + destruct (s_from o) as [f|]; [|destruct d; reflexivity]. destruct d as [dv|]; [|reflexivity].
+      rewrite jget_cfg_eq. destruct (jget strict dv f); [|reflexivity]. rewrite s_add_cfg_eq. reflexivity.
+  - cbn [c_lenient strict lenient andb]. destruct (s_is_root strict (s_path o)) eqn:R.
+    + specialize (NS (or_introl eq_refl) (RE eq_refl)).
+      destruct (s_from o) as [[|s r]|]; [contradiction (NS eq_refl) | | destruct d; reflexivity].
+      destruct d as [dv|]; [|reflexivity]. rewrite jget_cfg_eq. reflexivity.
+    + destruct (s_from o) as [f|] eqn:EF; [|destruct d; reflexivity]. destruct d as [dv|]; [|reflexivity].
+      cbn [negb andb]. rewrite (PP eq_refl f eq_refl).
+      rewrite jget_cfg_eq. destruct (jget strict dv f); [|reflexivity]. rewrite s_remove_cfg_eq.
+      destruct (s_remove strict dv f); [|reflexivity]. rewrite s_add_cfg_eq. reflexivity.
   - destruct (s_val o); [|reflexivity]. destruct (s_is_root strict (s_path o)); [reflexivity|].
     destruct d; [|reflexivity]. rewrite jget_cfg_eq. reflexivity.
 Qed.
@@ -1603,4 +1624,33 @@ Theorem patch_program_rfc_exact : forall fo l t, ops_ok l -> Forall rfc_shaped (
   end.
 Proof.
   intros fo l t HO SH H. rewrite <- rfc_program_lenient_is_strict by exact SH. apply apply_ops_lenient; assumption.
+Qed.
+
+(* ------------------------------------------------------------------ move / copy onto the root "" (22df63c) *)
+Theorem root_move_copy : forall fo t o f, inv t -> (p_op o = OMove \/ p_op o = OCopy) -> p_path o = [] -> p_from o = Some f ->
+  n_ty t <> TNone ->
+  match jget strict (val t) f with
+  | Some x => fst (apply_op fo t o) = RcOk /\ doc_val (snd (apply_op fo t o)) = Some x /\ inv (snd (apply_op fo t o))
+  | None => fst (apply_op fo t o) <> RcOk /\ snd (apply_op fo t o) = t
+  end.
+Proof.
+  intros fo t o f H K P F T.
+  assert (E : apply_op fo t o = root_from t (Some f)).
+  { destruct K as [K|K]; [rewrite (apply_move_eq fo t o K) | rewrite (apply_copy_eq fo t o K)]; rewrite P, F; reflexivity. }
+  rewrite E. rewrite <- jget_cfg_eq. destruct f as [|s r]; cbn [root_from].
+  - cbn [jget fst snd]. rewrite (doc_val_good t T). repeat split; auto.
+  - pose proof (find_spec (s :: r) t H) as FS. destruct (m_find t (s :: r)) as [v|].
+    + destruct FS as [F1 [F2 F3]]. rewrite F1. cbn [fst snd].
+      assert (G : good v) by (split; [exact F2 | apply F3; discriminate]).
+      pose proof (good_copy_data t v G) as [G1 G2]. split; [reflexivity|]. split; [|exact G1].
+      rewrite (doc_val_good _ G2), val_copy_data. reflexivity.
+    + rewrite FS. cbn [fst snd]. split; [discriminate | reflexivity].
+Qed.
+
+(* ------------------------------------------------------------------ swap between a location and one inside it (da6f72b) *)
+Theorem swap_nested_refused : forall fo t o f, p_op o = OSwap -> p_from o = Some f -> f <> [] -> is_root (p_path o) = false ->
+  seg_nested f (p_path o) = true -> apply_op fo t o = (RcPatchInvalid, t).
+Proof.
+  intros fo t o f K F NE R N. rewrite (apply_swap_eq fo t o K), F, R, N.
+  destruct f as [|s r]; [contradiction|]. reflexivity.
 Qed.
